@@ -18,6 +18,9 @@
     Reshape.lean  allIdx_ravel, reshape_self, reshapeS_sem_partial (the arg.shape == shape shortcut)
     Aggregates.lean  reductionWith_sem (any aggregate), reduceAxesWith_scalar, reductionWith_scalar_sem, aggAny_single
     NamedAgg.lean reduceNamedWith_sem, ReplInv, replInv_max/min, mean_unrelated, var_unrelated, reduceNamedWith_absent, sum_not_replInv
+    ReshapeFull.lean  reshapeS_sem_full (spec value fixed at EVERY index + equal tables), reshapeS_sem (exact equation on
+                  canonical rows), reshape_canon, reshape_self_canon, ofTensor_canon
+    FinStack.lean finStack_sem, finStack_get (eager_finitary_stack = np.stack of the parts' values, every axis; Model/C01Fin.lean)
     Total.lean    peval_total_core, core_complete_and_sound (typing commutes with evaluation)
   This file: non-vacuity examples.
 -/
@@ -26,6 +29,8 @@ import FunsorVerif.Props.C01.Einsum
 import FunsorVerif.Props.C01.Reshape
 import FunsorVerif.Props.C01.Aggregates
 import FunsorVerif.Props.C01.NamedAgg
+import FunsorVerif.Props.C01.ReshapeFull
+import FunsorVerif.Props.C01.FinStack
 namespace FV.Props.C01
 open FV FV.C01
 
